@@ -1,6 +1,6 @@
 """C02 -- a ULT never runs on two streams at once; its context survives every
 switch (structural part: assembly save/restore discipline + publication order)."""
-from abtverif import asmcheck, seq, cfg
+from abtverif import canon, asmcheck, seq, cfg
 from abtverif.asmcheck import CALLEE_SAVED
 from abtverif.seq import idx, is_call, show
 from . import common
@@ -30,6 +30,7 @@ ASSUMPTIONS = ["System V x86-64 calling convention", "assembler/linker preserve 
 RULES_DOC = dict(common.SHARED_DOC)
 RULES_DOC["R7"] = "= C03.R1: a join (and so a free of the descriptor and stack) returns only after it observed TERMINATED, i.e. after the target left its stack for good"
 RULES_DOC["R8"] = "= C12.R3: a unit that is suspending is not terminated (and freed) inside its suspend callback while its context is still linked for resumption"
+RULES_DOC["R9"] = "= C11.R6: after a switch that may resume the caller on another stream, the caller's stream pointer is re-read before it is used or returned (a ULT never saves its context into another ULT's descriptor)"
 RULES_DOC.update({
     "A1": "asm: complete frame (6 callee-saved regs, return address, FPU control) at the store of RSP into the old context; same layout in all savers",
     "A2": "asm: every resume sequence restores each register from its own slot, reloads FPU control, consumes the whole frame and jumps to the saved return address",
@@ -482,6 +483,26 @@ def rule_R3(P, rep):
                             why.append("argument struct read at %s after BLOCKED (it lives on the resumed ULT's stack)" % F.loc(d))
             rep.ob("R3", "%s: BLOCKED is the first publication [%s]" % (cb, show(toks)), not why, "; ".join(sorted(set(why))),
                    loc="%s:%d" % (F.file, F.line), site=cb)
+    # the yield-family callbacks that receive an argument struct publish the outgoing ULT by pushing it to its pool:
+    # from then on another stream may run it and reuse the stack the struct lives on
+    for cb in ("ABTI_ythread_callback_resume_yield_to",):
+        F = P.fn(cb, "src/ythread.c", flat=True)
+        argp = F.params[0]["n"]
+        pushes = [i for _b, i in F.calls({"ABTI_pool_add_thread", "ABTI_pool_push"})]
+        rep.need(pushes, "%s does not push the outgoing ULT" % cb)
+        why = []
+        for pnid in pushes:
+            for _b, j in F.all_events():
+                if j == pnid or not cfg.can_reach(F, pnid, j):
+                    continue
+                for d in F.descendants(j):
+                    dn = F.nodes[d]
+                    if dn.get("k") == "mem" and "_arg" in (F.nodes[F.strip(dn["b"])].get("t") or "") and \
+                            canon.rooted(F, d).startswith(argp + "->"):
+                        why.append("argument struct read at %s after the outgoing ULT was pushed at %s (it lives on that ULT's stack)" %
+                                   (F.loc(d), F.loc(pnid)))
+        rep.ob("R3", "%s: nothing is read from the argument struct after the outgoing ULT was pushed" % cb, not why,
+               "; ".join(sorted(set(why))), loc="%s:%d" % (F.file, F.line), site=cb + "/arg-after-push")
     rep.min_instances("R3", 5)
 
 
@@ -654,3 +675,5 @@ def run(P, rep, tier):
     from . import C03, C12      # lazy: C12 imports this module
     common.borrow(rep, P, C03.rule_R1, "R7")
     common.borrow(rep, P, C12.rule_R3, "R8")
+    from . import C11
+    common.borrow(rep, P, C11.rule_R6, "R9")
